@@ -1,4 +1,5 @@
 import Gtree.Lemmas.SourceRefines
+import Gtree.Lemmas.HeapBuilder
 import Gtree.Lemmas.MalformedIff
 import Gtree.Lemmas.Names
 import Gtree.Lemmas.Build
@@ -492,3 +493,17 @@ theorem C02_directly_under_is_the_source (h h' : Nat) (t t' : T) :
   isDirectlyUnder_src h h' t t'
 end Gtree
 
+
+namespace Gtree
+/-- Tie to the source, pointer code included (heap mode, regenerated on every run): `stack.dfs` of stack.go decides the
+    class "more than one level deeper than the item before".  For every heap, every stack of non-nil pointers and every
+    new node the translated `dfs` returns false — and the generator then reports the row — exactly when NO open node is
+    one level above the new node (`popTo … = none`; the stack is empty afterwards); in every other case the node is
+    attached (or an equally named sibling re-opened) and true is returned: no row is dropped silently. -/
+theorem C02_dfs_is_the_source (h : SrcH.Heap) (stk : List Go.Ptr) (c : Go.Ptr) (hne : ∀ p ∈ stk, p ≠ 0) :
+    SrcH.stack.dfs h stk c =
+      (match SrcH.popTo h (h c).hierarchy stk.reverse with
+       | none => (h, [], false)
+       | some (p, rest) => SrcH.attach h c p rest) :=
+  SrcH.dfs_spec h stk c hne
+end Gtree
